@@ -626,7 +626,9 @@ def big_count_jobs(ctx, n, tag="bc"):
 
 
 def event_count_failure(S, info, ret):
-    """the property's predicate on the trajectory (species-major records): every event count of a step is an int in [0, 2^31-1]"""
+    """the property's predicate on the trajectory (species-major records): every event count of a step is a non-negative whole number
+    within 10 standard deviations of its Poisson mean (since fix30 the counts are `long long`: a count may exceed 2^31-1; a value that went
+    through a narrower integer type, or an undefined double-to-int conversion, shows as a negative or far-off count)"""
     import math
     nc = info["ncell"]
     data = ret.get("data") or []
@@ -642,9 +644,11 @@ def event_count_failure(S, info, ret):
         if info["template"] == "reaction":
             for c in range(nc):
                 e = a[c] - b[c]
-                if not (0 <= e <= INT_MAX and e == int(e)):
-                    return ("step %d, cell %d: A goes from %d to %d: %d events of A -> B (mean %s), not an int in [0, 2^31-1]" % (q, c, a[c], b[c], e, a[c] * info["p"]),
-                            e, "0 <= events <= 2147483647")
+                mean = a[c] * info["p"]
+                if not (0 <= e and e == int(e) and abs(e - mean) <= 10 * math.sqrt(max(mean, 1)) + 10):
+                    return ("step %d, cell %d: A goes from %d to %d: %d events of A -> B (Poisson mean %s): not a non-negative whole number within 10 standard "
+                            "deviations of the mean (a count converted through a too-narrow integer type wraps)" % (q, c, a[c], b[c], e, mean),
+                            e, "0 <= events, |events - mean| <= 10 sqrt(mean) + 10")
                 if b[nc + c] - a[nc + c] != e:
                     return ("step %d, cell %d: A loses %d, B gains %d" % (q, c, e, b[nc + c] - a[nc + c]), b[nc + c] - a[nc + c], e)
         else:
@@ -661,8 +665,10 @@ def event_count_failure(S, info, ret):
                     if e != 0:
                         return ("cell %d, not a neighbour of the populated cell %d, changes by %d" % (c, s, e), e, 0)
                     continue
-                if not (0 <= e <= INT_MAX and e == int(e)):
-                    return ("step 1: %d molecules hop from cell %d to cell %d (mean %s): not an int in [0, 2^31-1]" % (e, s, c, a[s] * info["p"]), e, "0 <= events <= 2147483647")
+                mean = a[s] * info["p"]
+                if not (0 <= e and e == int(e) and abs(e - mean) <= 10 * math.sqrt(max(mean, 1)) + 10):
+                    return ("step 1: %d molecules hop from cell %d to cell %d (Poisson mean %s): not a non-negative whole number within 10 standard deviations "
+                            "of the mean" % (e, s, c, mean), e, "0 <= events, |events - mean| <= 10 sqrt(mean) + 10")
                 got += e
             if a[s] - b[s] != got:
                 return ("the populated cell loses %d, its neighbours gain %d" % (a[s] - b[s], got), a[s] - b[s], got)
